@@ -192,6 +192,22 @@ class Terms:
             return ('mcall', T(e['recv']), m) + tuple(args)
         if k == 'Call':
             f = e['func']
+            # Ident::new(&format!("pre{}", <number>), span): the identifier format_ident!("pre{}", <number>) builds (for identifier
+            # arguments the two differ: format_ident! drops a raw `r#` prefix, Display keeps it)
+            if f['k'] == 'Path' and f['path']['s'].split('::')[-1] == 'new' and f['path']['s'].split('::')[-2:-1] == ['Ident'] and len(e['args']) == 2:
+                a0 = e['args'][0]
+                while a0['k'] in ('Ref', 'Paren'):
+                    a0 = a0['expr']
+                if a0['k'] == 'MethodCall' and a0['method'] == 'as_str' and not a0['args']:
+                    a0 = a0['recv']
+                if a0['k'] == 'Macro' and a0['mac']['name'].split('::')[-1] == 'format' and a0['mac'].get('args'):
+                    fa = a0['mac']['args']
+                    if fa[0]['k'] == 'Lit' and fa[0]['lit']['k'] == 'Str':
+                        import re as _re
+                        ats = [T(x) for x in fa[1:]]
+                        holes_ = _re.findall(r'\{([^{}]*)\}', fa[0]['lit']['v'])
+                        if ats and holes_ and all(h_ == '' for h_ in holes_) and len(holes_) == len(ats) and all(self.is_numeric(t_) for t_ in ats):
+                            return ('format_ident', fa[0]['lit']['v']) + tuple(ats)
             if f['k'] == 'Path':
                 name = f['path']['s']
                 r = self.crate.resolve(self.fw.fn.module, [s['id'] for s in f['path']['segs']])
@@ -212,6 +228,8 @@ class Terms:
                     return ('format_ident', args[0]['lit'].get('v')) + tuple(T(a) for a in args[1:])
             if name == 'matches' and 'matches' in m:
                 mm = m['matches']
+                if mm.get('guard') is not None:
+                    return ('matches', T(mm['expr']), pat_shape(mm['pat']), es(mm['guard']))
                 return ('matches', T(mm['expr']), pat_shape(mm['pat']))
             return ('macro', name) + tuple(T(a) for a in (m.get('args') or []))
         if k == 'If':
@@ -259,6 +277,56 @@ class Terms:
         if k == 'Unsafe':
             return self.block_value_term(e['block'], depth + 1)
         return ('opaque', es(e))
+
+    def is_numeric(self, t, depth=0):
+        """does the term denote an unsigned integer (an enumerate index, an integer literal, the index component of a recorded
+        (index, item) selection)?"""
+        if not isinstance(t, tuple) or not t or depth > 8:
+            return False
+        h = t[0]
+        if h == 'idx' or (h == 'lit' and t[1] == 'Int'):
+            return True
+        if h == 'cast':
+            return self.is_numeric(t[1], depth + 1)
+        if h in ('ite', 'iflet'):
+            xs = [x for x in t[-2:] if x is not None and x != ('never',)]
+            return bool(xs) and all(self.is_numeric(x, depth + 1) for x in xs)
+        if h == 'match':
+            xs = [v for _, v in t[2:] if v != ('never',)]
+            return bool(xs) and all(self.is_numeric(x, depth + 1) for x in xs)
+        if h == 'proj':
+            return self.component_numeric(t[2], t[1], depth + 1)
+        return False
+
+    def component_numeric(self, x, i, depth=0):
+        if not isinstance(x, tuple) or not x or depth > 8:
+            return False
+        h = x[0]
+        if h == 'tuple':
+            return 1 + i < len(x) and self.is_numeric(x[1 + i], depth + 1)
+        if h in ('some_of', 'unwrap'):
+            return self.component_numeric(x[1], i, depth + 1)
+        if h in ('ite', 'iflet'):
+            xs = [y for y in x[-2:] if y is not None and y != ('never',)]
+            return bool(xs) and all(self.component_numeric(y, i, depth + 1) for y in xs)
+        if h == 'match':
+            xs = [v for _, v in x[2:] if v != ('never',)]
+            return bool(xs) and all(self.component_numeric(y, i, depth + 1) for y in xs)
+        if h == 'var':
+            d = self.def_by_id(x[1])
+            if d is None:
+                return False
+            vals = []
+            for a in d.assigns:
+                v = a.value
+                if v['k'] == 'Path' and es(v) == 'None':
+                    continue
+                if v['k'] == 'Call' and es(v['func']) == 'Some' and len(v['args']) == 1:
+                    vals.append(self.term(v['args'][0], a.scope, depth + 1))
+                else:
+                    return False
+            return bool(vals) and all(self.component_numeric(v, i, depth + 1) for v in vals)
+        return False
 
     def value_in_recorded_scope(self, node, depth):
         sc = self.scope_of_node(node)
